@@ -700,6 +700,7 @@ func (vc *VC) evalCall(c SCall, env *Env) SpecVal {
 		if !isI {
 			specFail("impl: %s is not an interface", te)
 		}
+		vc.registerImplementers(gt, it)
 		return ghostVal(sx(vc.enc.ImplPred(typeStr(gt), it), ty.T), "Bool")
 	case "ite":
 		cnd := arg(0)
